@@ -35,3 +35,45 @@ package updater
 //@   loop 0 invariant rangeindex >= -1 && rangeindex <= 1<<48 && firstRemoved == 1<<60
 //@   loop 1 invariant rangeindex >= -1 && rangeindex <= 1<<48 && firstRemoved == 1<<60
 //@   loop 2 invariant rangeindex >= -1 && rangeindex <= 1<<48 && firstRemoved >= purgeBoundary && res.Versions == old(res.Versions) && wfRes(res)
+
+//@ func (*Resource).inUse
+//@   requires res != nil
+//@   pure
+//@   ensures r0 == (res.ActiveVersion != nil)
+
+// selectVersion: the documented cascade. (Versions are sorted newest first by sort.Sort; the
+// assumption at that call states that sorting permutes the entries.)
+//@ func (*Resource).selectVersion
+//@   requires wfRes(res) && (res.notifier != nil ==> res.notifier.notifyChannel != nil)
+//@   modifies *
+//@   ghost var devEq bool = false
+//@   at after sort.Sort assume forall k int :: soff(res.Versions) <= k && k < soff(res.Versions) + len(res.Versions) ==> (exists j int :: soff(res.Versions) <= j && j < soff(res.Versions) + len(res.Versions) && elems(res.Versions)[k] == old(elems(res.Versions))[j])
+//@   at after sort.Sort assume forall j int :: soff(res.Versions) <= j && j < soff(res.Versions) + len(res.Versions) ==> (exists k int :: soff(res.Versions) <= k && k < soff(res.Versions) + len(res.Versions) && elems(res.Versions)[k] == old(elems(res.Versions))[j])
+//@   at after sort.Sort assert wfRes(res)
+//@   at after (*Version).Equal ghost devEq = ret0
+//@   ensures res.Versions == old(res.Versions) && (forall p *ResourceVersion :: p.Blacklisted == old(p.Blacklisted) && p.semVer == old(p.semVer))
+//@   ensures forall j int :: soff(res.Versions) <= j && j < soff(res.Versions) + len(res.Versions) ==> (exists k int :: soff(res.Versions) <= k && k < soff(res.Versions) + len(res.Versions) && elems(res.Versions)[k] == old(elems(res.Versions))[j])
+//@   ensures wfRes(res)
+//@   ensures len(res.Versions) == 0 ==> res.SelectedVersion == nil
+//@   ensures len(res.Versions) > 0 ==> (exists k int :: soff(res.Versions) <= k && k < soff(res.Versions) + len(res.Versions) && res.SelectedVersion == elems(res.Versions)[k])
+//@   ensures len(res.Versions) > 0 && !(res.registry.DevMode && devEq && elems(res.Versions)[soff(res.Versions) + len(res.Versions) - 1].Available) && res.SelectedVersion.Blacklisted ==> (forall k int :: soff(res.Versions) <= k && k < soff(res.Versions) + len(res.Versions) ==> !(!elems(res.Versions)[k].PreRelease && selectable(elems(res.Versions)[k])))
+//@   ensures len(res.Versions) > 0 && !(res.registry.DevMode && devEq && elems(res.Versions)[soff(res.Versions) + len(res.Versions) - 1].Available) && res.SelectedVersion.Blacklisted && res.registry.UsePreReleases ==> (forall k int :: soff(res.Versions) <= k && k < soff(res.Versions) + len(res.Versions) ==> !selectable(elems(res.Versions)[k]))
+//@   ensures len(res.Versions) > 0 && !(res.registry.DevMode && devEq && elems(res.Versions)[soff(res.Versions) + len(res.Versions) - 1].Available) && (exists k int :: soff(res.Versions) <= k && k < soff(res.Versions) + len(res.Versions) && !elems(res.Versions)[k].PreRelease && selectable(elems(res.Versions)[k])) ==> selectable(res.SelectedVersion)
+//@   loop 0 invariant rangeindex >= -1 && rangeindex <= 1<<48
+//@   loop 1 invariant rangeindex >= -1 && rangeindex <= 1<<48 && (forall k int :: soff(res.Versions) <= k && k < soff(res.Versions) + rangeindex + 1 ==> !selectable(elems(res.Versions)[k]))
+//@   loop 2 invariant rangeindex >= -1 && rangeindex <= 1<<48 && (forall k int :: soff(res.Versions) <= k && k < soff(res.Versions) + rangeindex + 1 ==> !(!elems(res.Versions)[k].PreRelease && selectable(elems(res.Versions)[k])))
+
+// the last non-blacklisted (non-dev) version cannot be blacklisted
+//@ spec isDev(v *version.Version) bool
+//@ spec goodV(rv *ResourceVersion) bool = !isDev(rv.semVer) && !rv.Blacklisted
+//@ spec distinctV(res *Resource) bool = forall a int, b int :: soff(res.Versions) <= a && a < b && b < soff(res.Versions) + len(res.Versions) ==> elems(res.Versions)[a] != elems(res.Versions)[b]
+
+//@ func (*Resource).Blacklist
+//@   requires wfRes(res) && distinctV(res) && (res.notifier != nil ==> res.notifier.notifyChannel != nil)
+//@   modifies *
+//@   at after (*Version).Equal assume ret0 == isDev(arg0)
+//@   ensures r0 == nil ==> (exists k int :: soff(res.Versions) <= k && k < soff(res.Versions) + len(res.Versions) && goodV(elems(res.Versions)[k]))
+//@   loop 0 invariant rangeindex >= -1 && rangeindex < len(res.Versions) && valid >= 0 && valid <= rangeindex + 1
+//@   loop 0 invariant valid >= 1 ==> (exists k int :: soff(res.Versions) <= k && k < soff(res.Versions) + rangeindex + 1 && goodV(elems(res.Versions)[k]))
+//@   loop 0 invariant valid >= 2 ==> (exists a int, b int :: soff(res.Versions) <= a && a < b && b < soff(res.Versions) + rangeindex + 1 && goodV(elems(res.Versions)[a]) && goodV(elems(res.Versions)[b]))
+//@   loop 1 invariant rangeindex >= -1 && rangeindex <= 1<<48 && (forall p *ResourceVersion :: p.Blacklisted == old(p.Blacklisted))
